@@ -793,6 +793,9 @@ func (g *GcsEmu) finishCompose(baseUrl HttpBaseUrl, bucket string, dst composeOb
 	if len(srcs) > gcsMaxComposeSources {
 		return nil, fmtErrorfCode(http.StatusBadRequest, "too many sources")
 	}
+	if meta == nil {
+		meta = &storage.Object{}
+	}
 
 	// TODO: consider moving this to disk to handle very large compose operations
 	var data []byte
